@@ -586,7 +586,7 @@ func (u *Universe) buildAndRun(cs []*Container, tags string, isMain bool) error 
 		initCrash := string(prog) == ""
 		for _, c := range pending {
 			if c.Name == crasher {
-				c.Crashed = fmt.Sprintf("%v\n%s", runErr, tailStr(stderr.String(), 60))
+				c.Crashed = fmt.Sprintf("%v\n%s", runErr, headTail(stderr.String(), 40, 40))
 				found = true
 				continue
 			}
@@ -606,6 +606,14 @@ func (u *Universe) buildAndRun(cs []*Container, tags string, isMain bool) error 
 		pending = rest
 	}
 	return nil
+}
+
+func headTail(s string, h, t int) string {
+	l := strings.Split(strings.TrimRight(s, "\n"), "\n")
+	if len(l) <= h+t {
+		return strings.Join(l, "\n")
+	}
+	return strings.Join(l[:h], "\n") + "\n...\n" + strings.Join(l[len(l)-t:], "\n")
 }
 
 func tailStr(s string, n int) string {
